@@ -166,8 +166,12 @@ func main() {
 		}
 		c.NonTrivial()
 	})
-	gp := func(k int) orb.Point { return orb.Point{10 + float64(k%4)*1.5, 40 + float64(k/4)*1.25} }
-	ringPart := func(n int) func(c *mc.Ctx) {
+	narrow := func(k int) orb.Point { return orb.Point{10 + float64(k%4)*1.5, 40 + float64(k/4)*1.25} }
+	// continental lattice: vertices up to 330 degrees of longitude apart, both hemispheres
+	wideLat := func(k int) orb.Point { return orb.Point{-170 + float64(k%4)*110, -60 + float64(k/4)*43.5} }
+	var ringPartOn func(n int, gp func(int) orb.Point, wide bool) func(c *mc.Ctx)
+	ringPart := func(n int) func(c *mc.Ctx) { return ringPartOn(n, narrow, false) }
+	ringPartOn = func(n int, gp func(int) orb.Point, wide bool) func(c *mc.Ctx) {
 		return func(c *mc.Ctx) {
 			ring := make(orb.Ring, n)
 			for i := range ring {
@@ -175,6 +179,9 @@ func main() {
 			}
 			base := geo.SignedArea(ring)
 			tol := 1e-9*math.Abs(base) + 1e-3
+			if wide {
+				tol += 1 // the terms are of the order R^2 = 4e13 m^2: one square metre is 2.5e-14 of that
+			}
 			closed := append(ring.Clone(), ring[0])
 			if a := geo.SignedArea(closed); math.Abs(a-base) > tol {
 				c.Failf("ring-closed-spelling", "SignedArea closed %v vs unclosed %v | %v", a, base, ring)
@@ -207,7 +214,7 @@ func main() {
 				p, q := ring[i], ring[(i+1)%n]
 				sh += p[0]*q[1] - q[0]*p[1]
 			}
-			if sh != 0 && math.Abs(base) > 1 && (sh > 0) != (base > 0) {
+			if !wide && sh != 0 && math.Abs(base) > 1 && (sh > 0) != (base > 0) {
 				simple := n == 3
 				if simple {
 					c.Failf("ring-sign", "SignedArea = %v but the ring winds with planar shoelace %v | %v", base, sh, ring)
@@ -280,6 +287,9 @@ func main() {
 	}
 	for n := 3; n <= ev.Pick(r, 4, 5); n++ {
 		r.Explore(fmt.Sprintf("rings-%d", n), fmt.Sprintf("all 16^%d vertex lists on a 4x4 degree lattice: rotation / closure-spelling invariance, reversal negates, polygon = outer - holes, multi / collection sum", n), mc.Opts{MaxDev: -1, Split: 2}, ringPart(n))
+		if n <= 4 {
+			r.Explore(fmt.Sprintf("rings-wide-%d", n), fmt.Sprintf("all 16^%d vertex lists on a continental lattice (longitudes -170..160, latitudes -60..70): the same invariances", n), mc.Opts{MaxDev: -1, Split: 2}, ringPartOn(n, wideLat, true))
+		}
 	}
 	r.Sample(map[string]interface{}{"pair": "[-135,80] and [45,-80] (antipodal)", "expected": "haversine finite and <= pi R"})
 	r.Sample(map[string]interface{}{"box": "{[45,30],[48,33]}", "closed_form": "R^2 * 3deg * (sin 33 - sin 30)"})
